@@ -6,6 +6,10 @@
 #include "bitserializer/msgpack_archive.h"
 #include "bitserializer/types/std/chrono.h"
 #include "bitserializer/types/std/ctime.h"
+#include "bitserializer/rapidjson_archive.h"
+#include "bitserializer/pugixml_archive.h"
+#include "bitserializer/csv_archive.h"
+#include "bitserializer/types/std/vector.h"
 #include <chrono>
 
 using namespace BitSerializer;
@@ -220,7 +224,14 @@ VF_PROPERTY(dur_days_, 1, "duration<days,int64>") { prop_dur<dur_d<int64_t>>(c);
 VF_PROPERTY(dur_s32, 1, "duration<s,int32>") { prop_dur<dur_s<int32_t>>(c); }
 VF_PROPERTY(dur_h32, 1, "duration<h,int32>") { prop_dur<dur_h<int32_t>>(c); }
 
-VF_PROPERTY(raw_time, 1, "time_t through CRawTime and CTimeRef: text vs reference, parse back, MsgPack passage of CTimeRef; non-trivial = negative time_t")
+namespace {
+template <class A> struct Tag { using type = A; };
+struct TimePair { time_t v[2]; size_t size() const { return 2; } time_t& operator[](size_t i) { return v[i]; } const time_t& operator[](size_t i) const { return v[i]; } };
+template <class TArchive> void SerializeArray(TArchive& a, TimePair& p) { a << CTimeRef(p.v[0]); a << CTimeRef(p.v[1]); }
+struct TimeRec { time_t t; TimePair pair; template <class TArchive> void Serialize(TArchive& a) { a << KeyValue("t", CTimeRef(t)); a << KeyValue("p", pair); } };
+struct TimeRow { time_t t = 0; template <class TArchive> void Serialize(TArchive& a) { a << KeyValue("t", CTimeRef(t)); } };
+}
+VF_PROPERTY(raw_time, 1, "time_t through CRawTime and CTimeRef: text vs reference, parse back, MsgPack passage of CTimeRef, and CTimeRef as a member and as a sequence element through JSON, XML and CSV (the document holds the ISO text and loads back to the same time_t); non-trivial = negative time_t")
 {
 	i128 count = gen_count<dur_s<int64_t>>(c.src, true);
 	c.describe(vf::cat("time_t ", refcal::i128s(count)));
@@ -234,6 +245,19 @@ VF_PROPERTY(raw_time, 1, "time_t through CRawTime and CTimeRef: text vs referenc
 	if (back.Time != t) c.fail("CRawTime text parses back to a different time", vf::cat(text, " -> ", back.Time));
 	time_t src = t, dst = 0; std::string bytes = SaveObject<MsgPack::MsgPackArchive>(CTimeRef(src)); LoadObject<MsgPack::MsgPackArchive>(CTimeRef(dst), bytes);
 	if (dst != t) c.fail("CTimeRef changes through MsgPack", vf::cat(refcal::i128s(count), " -> ", dst, " ", vf::hex(bytes)));
+	// the text archives keep a time_t as its ISO text: as a member and as a bare element of a sequence
+	TimeRec rec{ t, { { t, static_cast<time_t>(t / 2) } } };
+	auto passage = [&](auto tag, const char* arch) {
+		using A = typename decltype(tag)::type; TimeRec got{ 0, { { 0, 0 } } }; std::string doc;
+		try { doc = SaveObject<A>(rec); LoadObject<A>(got, doc); }
+		catch (const std::exception& e) { c.fail("CTimeRef does not survive a text archive", vf::cat(arch, " ", refcal::i128s(count), " ", doc.substr(0, 200), " -> ", e.what())); }
+		if (doc.find(want) == std::string::npos) c.fail("a text archive holds another text for a time_t than the ISO date-time", vf::cat(arch, " ", doc.substr(0, 200), " want ", want));
+		if (got.t != rec.t || got.pair[0] != rec.pair[0] || got.pair[1] != rec.pair[1]) c.fail("CTimeRef does not survive a text archive", vf::cat(arch, " ", refcal::i128s(count), " ", doc.substr(0, 200), " -> ", got.t, " ", got.pair[0], " ", got.pair[1]));
+	};
+	passage(Tag<Json::RapidJson::JsonArchive>{}, "JSON"); passage(Tag<Xml::PugiXml::XmlArchive>{}, "XML");
+	{ std::vector<TimeRow> rows{ { t }, { static_cast<time_t>(t / 3) } }, got; std::string doc;
+	  try { doc = SaveObject<Csv::CsvArchive>(rows); LoadObject<Csv::CsvArchive>(got, doc); } catch (const std::exception& e) { c.fail("CTimeRef does not survive a text archive", vf::cat("CSV ", refcal::i128s(count), " ", doc.substr(0, 200), " -> ", e.what())); }
+	  if (doc.find(want) == std::string::npos || got.size() != 2 || got[0].t != rows[0].t || got[1].t != rows[1].t) c.fail("CTimeRef does not survive a text archive", vf::cat("CSV ", refcal::i128s(count), " ", doc.substr(0, 200))); }
 }
 
 // ---- witnesses of the recorded findings (run in their own unit; each asserts only the recorded deviation) ------------------------------
